@@ -245,8 +245,20 @@ func (ip *idxProver) lenOf(x ssa.Value, f *ifacts) lterm {
 			return base
 		}
 		switch calleeName(y.Common()) {
-		case "bytes.Clone", "slices.Clone":
-			return ip.lenOf(y.Common().Args[0], f)
+		case "bytes.Clone", "slices.Clone", "bytes.ToUpper", "bytes.ToLower":
+			/* (ASCII-only case mapping would be needed for ToUpper/ToLower
+			in general; on bytes ≥ 0x80 the length can change, so only the
+			clones are exact.) */
+			if n := calleeName(y.Common()); "bytes.Clone" == n || "slices.Clone" == n {
+				return ip.lenOf(y.Common().Args[0], f)
+			}
+		case "bytes.ReplaceAll":
+			/* Replacing one byte by one byte keeps the length. */
+			a, okA := constByteSlice(y.Common().Args[1])
+			b, okB := constByteSlice(y.Common().Args[2])
+			if okA && okB && 1 == len(a) && 1 == len(b) {
+				return ip.lenOf(y.Common().Args[0], f)
+			}
 		}
 	case *ssa.UnOp:
 		if token.MUL == y.Op {
@@ -662,19 +674,38 @@ func (ip *idxProver) prove(mk func(f *ifacts) lterm, f *ifacts, depth int) bool 
 		return false
 	}
 	for _, ph := range phisIn(t, f) {
-		/* Loop-carried phis (range indexes) are not split. */
-		if lo, _ := ip.atomBounds(ph); lo.ok {
-			if _, isInt := ph.Type().Underlying().(*types.Basic); isInt {
-				continue
-			}
-		}
+		h := ph.Block()
 		all := true
 		for k, e := range ph.Edges {
 			if e == ssa.Value(ph) {
 				continue
 			}
-			ef := ip.factsOnEdge(ph.Block().Preds[k], ph.Block())
+			ef := ip.factsOnEdge(h.Preds[k], h)
 			nf := f.clone()
+			if h.Dominates(h.Preds[k]) {
+				/* A way round a loop: the value is what the last trip
+				computed, and what is known about it is what held on that
+				trip's way back (the edge facts).  Facts gathered at the site
+				speak of this trip's values of everything the loop computes,
+				the edge facts of the last trip's: the two are only mixed
+				where they speak of values the loop does not compute. */
+				if !ip.loopInvariantBut(t, h, ph) {
+					all = false
+					break
+				}
+				nf.ge = nil
+				nf.cong = map[ssa.Value][2]int64{}
+				for _, g := range f.ge {
+					if ip.loopInvariantBut(g, h, nil) {
+						nf.ge = append(nf.ge, g)
+					}
+				}
+				for a, c := range f.cong {
+					if !inLoopValue(a, h) {
+						nf.cong[a] = c
+					}
+				}
+			}
 			nf.ge = append(nf.ge, ef.ge...)
 			for a, c := range ef.cong {
 				nf.cong[a] = c
@@ -703,6 +734,28 @@ func (ip *idxProver) prove(mk func(f *ifacts) lterm, f *ifacts, depth int) bool 
 		}
 	}
 	return false
+}
+
+// inLoopValue: v is computed by the loop headed by h (anew on every trip).
+func inLoopValue(v ssa.Value, h *ssa.BasicBlock) bool {
+	i, ok := v.(ssa.Instruction)
+	if !ok || nil == i.Block() {
+		return false
+	}
+	return h.Dominates(i.Block())
+}
+
+// loopInvariantBut: every atom of t other than `but` is a value the loop
+// headed by h does not compute.  (Blocks after the loop are dominated by its
+// head as well: values computed there count as the loop's, which only makes
+// the prover decline.)
+func (ip *idxProver) loopInvariantBut(t lterm, h *ssa.BasicBlock, but ssa.Value) bool {
+	for a := range t.co {
+		if a != but && inLoopValue(a, h) {
+			return false
+		}
+	}
+	return true
 }
 
 // idxSite is one bounds obligation.
